@@ -96,7 +96,11 @@ func c46Jobs(thorough bool, dir string, noPoll map[string]bool) []Job {
 	// the semaphore harness first (longest)
 	for _, remote := range []bool{false, true} {
 		b := []int{0, 1}
+		if thorough {
+			b = []int{0, 1, 2}
+		}
 		add(Params{Remote: remote, N: 17, Fail: 1<<3 | 1<<16, Variant: "plain", Cache: remote}, b, 0)
+		js[len(js)-1].Deviation = true // 20 symmetric threads: deviation bounding instead of preemption bounding
 	}
 	for n := 3; n >= 1; n-- {
 		for _, remote := range []bool{false, true} {
@@ -125,8 +129,9 @@ func c46Jobs(thorough bool, dir string, noPoll map[string]bool) []Job {
 
 func c46Race(dir string) []Job {
 	return []Job{
-		{Harness: "c46", Name: "race/local-n3", P: Params{N: 3, Fail: 2, Variant: "mixed", Dir: filepath.Join(dir, "files", "race-local")}},
-		{Harness: "c46", Name: "race/remote-n17-cache", P: Params{Remote: true, N: 17, Fail: 1 << 5, Variant: "plain", Cache: true}},
+		{Harness: "c46", Name: "race/local-n3-all-failing", P: Params{N: 3, Fail: 7, Variant: "mixed", Dir: filepath.Join(dir, "files", "race-local")}},
+		{Harness: "c46", Name: "race/local-n17-half-failing", P: Params{N: 17, Fail: 0x15555, Variant: "plain", Dir: filepath.Join(dir, "files", "race-local17")}},
+		{Harness: "c46", Name: "race/remote-n17-cache-half-failing", P: Params{Remote: true, N: 17, Fail: 0x0aaaa, Variant: "plain", Cache: true}},
 	}
 }
 
@@ -136,7 +141,7 @@ func init() {
 		eng.Register(&eng.Check{
 			ID: id, Level: "model_checking", Rule: rule,
 			Assumptions:    append(append([]string{}, assumptions...), commonAssumptions...),
-			QuickBudget:    110 * time.Second,
+			QuickBudget:    280 * time.Second, // sized for ≈ 45 s on an idle 16-core machine; the slack is for a loaded one
 			ThoroughBudget: 24 * time.Minute,
 			Oracles:        map[string]eng.Oracle{"schedule": replayOracle(id, sp.target), "race": replayOracle(id, sp.target)},
 			Solo:           func(p *eng.Solo) { runSpec(p, sp) },
@@ -158,7 +163,7 @@ func init() {
 		},
 		spec{jobs: c45Jobs, raceJobs: watchRace, raceRuns: 40, target: tWatch})
 	reg("C46",
-		"same engine over the real bundle / runWorkers / worker of the current lib/imgbundler/imgbundler.go: for n ∈ {1,2,3} references (document also contains a duplicate, a data: URI, a reference of the other kind and text nodes repeating reference strings; one reference is a suffix of another), every failing subset (2^n; missing file, HTTP 404 or transport error), local and remote mode, image cache on/off, ALL schedules of waiter + dispatcher + n workers + collector (bounds as listed per system), plus n = 17 (semaphore of 16) at preemption bound 1; per configuration the number of distinct outcomes over all explored schedules must be 1",
+		"same engine over the real bundle / runWorkers / worker of the current lib/imgbundler/imgbundler.go: for n ∈ {1,2,3} references (document also contains a duplicate, a data: URI, a reference of the other kind and text nodes repeating reference strings; one reference is a suffix of another), every failing subset (2^n; missing file, HTTP 404 or transport error), local and remote mode, image cache on/off, ALL schedules of waiter + dispatcher + n workers + collector (bounds as listed per system), plus n = 17 (semaphore of 16) under deviation bounding (every non-default scheduling choice costs 1) at bound 1 (thorough: 2); per configuration the number of distinct outcomes over all explored schedules must be 1",
 		[]string{
 			"file reads are real reads of files in the scratch directory behind one scheduling point; HTTP goes through the real httpGet with a fake RoundTripper (one scheduling point, 200/404/transport error)",
 			"the reported failing set is parsed from the error text ('[a b]'), compared as a set: the order of the entries is completion order by design",
